@@ -186,6 +186,18 @@ func (msg MsgProof) ValidateBasic() sdk.Error {
 	if _, err := msg.EvidenceType.Byte(); err != nil {
 		return NewInvalidEvidenceErr(ModuleName)
 	}
+	// the leaf must be of the kind the evidence type names: the claim is looked up by the evidence
+	// type, but rewarded, burned and deleted by the kind of the leaf
+	switch msg.Leaf.(type) {
+	case RelayProof, *RelayProof:
+		if msg.EvidenceType != RelayEvidence {
+			return NewInvalidEvidenceErr(ModuleName)
+		}
+	case ChallengeProofInvalidData, *ChallengeProofInvalidData:
+		if msg.EvidenceType != ChallengeEvidence {
+			return NewInvalidEvidenceErr(ModuleName)
+		}
+	}
 	return nil
 }
 
